@@ -290,6 +290,12 @@ func (*hbits) Run(rc *core.RunCtx) *core.RunResult {
 			res.Probes["nested_values_checked"]++
 			continue
 		}
+		if faulted && (start < 0 || stop < start || int64(stop) > int64(len(fileBits))) {
+			// after an injected read error a decoder may have worked on what it got: the
+			// structure of such trees is C03's business (ioFailed there), not compared here
+			res.Probes["range_outside_input_after_fault"]++
+			continue
+		}
 		if start < 0 || stop < start || int64(stop) > int64(len(fileBits)) {
 			viol("range-outside-input", "range", "value %v reports range %v..%v outside the %d input bits", row[0], start, stop, len(fileBits))
 			return res
